@@ -63,6 +63,9 @@ pub struct NodeSpec {
     pub tcp: String,
     pub http: String,
     pub ws: String,
+    /// the address the TCP listener binds to (`--tcp-address`); `tcp` is the address the node announces and the
+    /// others connect to (`--external-address`).  Equal unless the world was built with `new_split`.
+    pub bind_tcp: String,
 }
 
 pub struct World {
@@ -71,6 +74,12 @@ pub struct World {
 
 impl World {
     pub fn new(n: usize) -> World {
+        World::new_split(n, false)
+    }
+
+    /// `split`: every node binds its TCP listener to a private address and announces a public one
+    /// (`--tcp-address` differs from `--external-address`, a node behind address translation)
+    pub fn new_split(n: usize, split: bool) -> World {
         let mut nodes = Vec::new();
         for i in 0..n {
             let idx = with(|k| {
@@ -81,6 +90,10 @@ impl World {
             with(|k| {
                 for port in [3012, 3013, 3014] {
                     k.net.addr_owner.insert(format!("10.0.0.{}:{}", i + 1, port), idx);
+                }
+                if split {
+                    k.net.addr_owner.insert(format!("172.16.0.{}:3014", i + 1), idx);
+                    k.net.aliases.insert(format!("10.0.0.{}:3014", i + 1), format!("172.16.0.{}:3014", i + 1));
                 }
                 // messages between nodes are never instantaneous: CPU work costs no simulated time
                 // here, so a zero-latency network would let a reply overtake the sender's own
@@ -94,6 +107,7 @@ impl World {
                 tcp: format!("10.0.0.{}:3014", i + 1),
                 http: format!("10.0.0.{}:3013", i + 1),
                 ws: format!("10.0.0.{}:3012", i + 1),
+                bind_tcp: if split { format!("172.16.0.{}:3014", i + 1) } else { format!("10.0.0.{}:3014", i + 1) },
             });
         }
         World { nodes }
@@ -118,7 +132,7 @@ impl World {
         let _h: JoinHandle<()> = spawn_with_meta(
             Some(TaskMeta { node: Some(spec.idx), gen, name: "main".into(), ord: 0 }),
             move || {
-                let _ = nun_main::verif_start_db(USER, PWD, &spec.ws, &spec.http, &spec.tcp, &replicate, &spec.tcp);
+                let _ = nun_main::verif_start_db(USER, PWD, &spec.ws, &spec.http, &spec.bind_tcp, &replicate, &spec.tcp);
             },
         );
         gen
